@@ -309,3 +309,119 @@ pub fn eval_c05(case: &J) -> Outcome {
     }
     out
 }
+
+// ------------------------------------------------------------------------------------------------
+// C04: key release — contribution limiting and tau-thresholding
+
+/// Acklam's rational approximation of the standard normal quantile (independent of statrs / the library)
+pub fn inv_phi(p: f64) -> f64 {
+    let a = [-3.969683028665376e+01, 2.209460984245205e+02, -2.759285104469687e+02, 1.383577518672690e+02, -3.066479806614716e+01, 2.506628277459239e+00];
+    let b = [-5.447609879822406e+01, 1.615858368580409e+02, -1.556989798598866e+02, 6.680131188771972e+01, -1.328068155288572e+01];
+    let c = [-7.784894002430293e-03, -3.223964580411365e-01, -2.400758277161838e+00, -2.549732539343734e+00, 4.374664141464968e+00, 2.938163982698783e+00];
+    let d = [7.784695709041462e-03, 3.224671290700398e-01, 2.445134137142996e+00, 3.754408661907416e+00];
+    let pl = 0.02425;
+    if p < pl { let q = (-2.0 * p.ln()).sqrt(); (((((c[0] * q + c[1]) * q + c[2]) * q + c[3]) * q + c[4]) * q + c[5]) / ((((d[0] * q + d[1]) * q + d[2]) * q + d[3]) * q + 1.0) }
+    else if p <= 1.0 - pl { let q = p - 0.5; let r = q * q; (((((a[0] * r + a[1]) * r + a[2]) * r + a[3]) * r + a[4]) * r + a[5]) * q / (((((b[0] * r + b[1]) * r + b[2]) * r + b[3]) * r + b[4]) * r + 1.0) }
+    else { let q = (-2.0 * (1.0 - p).ln()).sqrt(); -(((((c[0] * q + c[1]) * q + c[2]) * q + c[3]) * q + c[4]) * q + c[5]) / ((((d[0] * q + d[1]) * q + d[2]) * q + d[3]) * q + 1.0) }
+}
+
+pub fn gen_limit(rng: &mut Rng, _k: usize, _tier: &str) -> J {
+    let n_units = 1 + rng.below(5); let n_keys = 1 + rng.below(8);
+    // distinct (unit, key) pairs, as after `unique`
+    let mut rows: Vec<[u64; 2]> = vec![];
+    for u in 0..n_units { for k in 0..n_keys { if rng.chance(2, 3) { rows.push([u, k]); } } }
+    json!({"rows": rows, "k": 1 + rng.below(4), "seed": rng.next() % 1000000, "n_units": n_units})
+}
+
+pub fn eval_limit(case: &J) -> Outcome {
+    use qrlew::{builder::Ready, DataType};
+    let mut out = Outcome::new();
+    let k = case["k"].as_u64().unwrap();
+    let table: Relation = Relation::table().name("t").schema(vec![("pu", DataType::integer_interval(0, 10)), ("key", DataType::integer_interval(0, 10))].into_iter().collect::<qrlew::relation::Schema>()).size(100).build();
+    let rel = match guarded(|| table.clone().limit_col_contributions("pu", k)) { Ok(r) => r, Err((loc, msg)) => { out.tag("trivial"); out.fail(&format!("C18/limit/panic/{}", site_file(&loc)), msg); return out; } };
+    let rows: Vec<Vec<Cell>> = case["rows"].as_array().unwrap().iter().map(|r| vec![Cell::Int(r[0].as_i64().unwrap()), Cell::Int(r[1].as_i64().unwrap())]).collect();
+    for mode in [RandomMode::Seeded(case["seed"].as_u64().unwrap()), RandomMode::Const(0.25)] {
+        let mode_copy = mode.clone();
+        let db = crate::exec::Db::new(mode);
+        db.create_table("t", &["pu", "key"], &rows);
+        match db.run(&rel) {
+            Ok((names, res)) => {
+                let pi = names.iter().position(|n| n == "pu").unwrap_or(0);
+                let mut per: BTreeMap<i64, usize> = BTreeMap::new();
+                for r in &res { if let Cell::Int(u) = r[pi] { *per.entry(u).or_default() += 1; } }
+                let mut had_more = false;
+                for u in 0..case["n_units"].as_i64().unwrap() {
+                    let before = rows.iter().filter(|r| r[0] == Cell::Int(u)).count();
+                    let after = *per.get(&u).unwrap_or(&0);
+                    if before as u64 > k { had_more = true; }
+                    if after as u64 > k { out.fail("C04/limit/unit-exceeds-max-groups", format!("limit_col_contributions(pu, {k}) executed on SQLite leaves unit {u} in {after} groups (rows {:?})", case["rows"])); return out; }
+                    if after > before { out.fail("C04/limit/rows-invented", format!("unit {u} has {after} rows after limiting but {before} before")); return out; }
+                }
+                if had_more { out.tag("limit-active"); } else { out.tag("trivial"); }
+                // under constant draws all ranks tie: the per-unit counts are compared with the Lean model of the rank filter
+                if let RandomMode::Const(_) = mode_copy { out.imp = json!({"const_counts": (0..case["n_units"].as_i64().unwrap()).map(|u| *per.get(&u).unwrap_or(&0)).collect::<Vec<_>>()}); }
+            }
+            Err(e) => { out.fail("C17/sqlite/limit-not-executable", e); return out; }
+        }
+    }
+    out
+}
+
+pub fn gen_c04(rng: &mut Rng, _k: usize, _tier: &str) -> J {
+    // grouped by a private-valued key (thresholded), optionally with a public-valued one
+    let (sql, keycols) = match rng.below(5) {
+        0 => ("SELECT age AS k0, count(id) AS c FROM users GROUP BY age".to_string(), vec!["age"]),
+        1 => ("SELECT qty AS k0, sum(amount) AS c FROM orders GROUP BY qty".to_string(), vec!["qty"]),
+        2 => ("SELECT city AS k0, age AS k1, count(id) AS c FROM users GROUP BY city, age".to_string(), vec!["city", "age"]),
+        3 => ("SELECT age AS k0, avg(income) AS c FROM users WHERE income > 100 GROUP BY age".to_string(), vec!["age"]),
+        _ => ("SELECT users.age AS k0, sum(orders.amount) AS c FROM users JOIN orders ON users.id = orders.user_id GROUP BY users.age".to_string(), vec!["age"]),
+    };
+    json!({"sql": sql, "keys": keycols, "data_seed": rng.next() % 100000, "n_users": *rng.pick(&[5i64, 30, 200, 600]), "max_orders": rng.range(1, 4),
+           "eps": *rng.pick(&[0.5, 1.0, 4.0, 50.0]), "delta": *rng.pick(&[1e-2, 1e-4, 1e-7, 0.3]), "share": *rng.pick(&[0.5, 0.2, 0.9]), "groups": *rng.pick(&[1u64, 2, 5])})
+}
+
+pub fn eval_c04(case: &J) -> Outcome {
+    let mut out = Outcome::new();
+    let sql = case["sql"].as_str().unwrap();
+    let rels = world();
+    let rel = match parse_rel(sql) { Ok(r) => r, Err(_) => { out.tag("trivial"); return out; } };
+    let (eps, delta, share, kk) = (case["eps"].as_f64().unwrap(), case["delta"].as_f64().unwrap(), case["share"].as_f64().unwrap(), case["groups"].as_u64().unwrap());
+    let p = DpParameters::new(eps, delta, share, 100.0, 1.0, kk);
+    let dp = match guarded(|| rel.rewrite_with_differential_privacy(&rels, None, privacy_unit(), p.clone())) {
+        Ok(Ok(d)) => d, Ok(Err(_)) => { out.tag("trivial"); return out; }
+        Err((loc, msg)) => { out.tag("trivial"); out.fail(&format!("C18/c04/rewrite-panic/{}", site_file(&loc)), format!("{sql}: {msg}")); return out; }
+    };
+    let facts = ir::facts(dp.relation());
+    if facts.taus.is_empty() { out.tag("trivial"); out.tag("no-threshold"); return out; }
+    // the threshold and the count noise must be at least what the (ε, δ) share reserved for key release requires
+    let (e_t, d_t, kf) = (eps * share, delta * share, kk as f64);
+    let sigma_req = (2.0 * (1.25 / d_t).ln()).sqrt() / e_t * kf.sqrt();
+    let tau_req = 1.0 + sigma_req * inv_phi((1.0 - d_t).powf(1.0 / kf));
+    let (_, tau, strict) = facts.taus[0].clone();
+    let tau_sigma = facts.noises.iter().find(|(n, _, clamped)| n.contains("COUNT_DISTINCT") && !clamped).map(|(_, s, _)| *s);
+    if tau < tau_req * (1.0 - 1e-6) - 1e-9 { out.fail("C04/tau/threshold-too-low", format!("{sql} with {:?}: threshold τ = {tau} in the rewritten query is below the τ = {tau_req} required by (ε·share, δ·share, max groups) = ({e_t}, {d_t}, {kk})", p)); }
+    if let Some(s) = tau_sigma { if s < sigma_req * (1.0 - 1e-9) { out.fail("C04/tau/noise-too-small", format!("{sql} with {:?}: thresholding noise σ = {s} is below the required {sigma_req}", p)); } }
+    else { out.fail("C04/tau/no-noise-on-count", format!("{sql}: no noise is added to the distinct-unit count before thresholding")); }
+    if tau < 1.0 { out.fail("C04/tau/below-one", format!("{sql} with {:?}: τ = {tau} < 1: a key held by a single unit can be released with non-positive noise", p)); }
+    let _ = strict;
+    // execution with noise neutralised: a released private key must be held by more than τ units (after limiting, so at least that many before)
+    let data = data_of(case);
+    let db = data.load(RandomMode::Const(0.25));
+    let res = match db.run(dp.relation()) { Ok(x) => x, Err(e) => { out.fail("C17/sqlite/dp-not-executable", format!("{sql}: {e}")); return out; } };
+    // distinct units per key value in the data (key = age or qty: the last key column is the private one)
+    let keyname = case["keys"].as_array().unwrap().last().unwrap().as_str().unwrap();
+    let nkeys = case["keys"].as_array().unwrap().len();
+    let mut units: BTreeMap<String, std::collections::BTreeSet<i64>> = BTreeMap::new();
+    if keyname == "age" { for u in &data.users { if let (Cell::Int(id), Cell::Int(age)) = (&u[0], &u[1]) { units.entry(Cell::Int(*age).key()).or_default().insert(*id); } } }
+    else { for o in &data.orders { if let (Cell::Int(uid), Cell::Int(q)) = (&o[1], &o[3]) { units.entry(Cell::Int(*q).key()).or_default().insert(*uid); } } }
+    if !res.1.is_empty() { out.tag("keys-released"); }
+    for r in &res.1 {
+        let kv = r[nkeys - 1].key();
+        let n = units.get(&kv).map_or(0, |s| s.len());
+        if (n as f64) <= tau.floor() && !(n as f64 > tau) {
+            out.fail("C04/exec/rare-key-released", format!("{sql} with {:?}: with noise neutralised the key {kv} is released although only {n} privacy unit(s) hold it and τ = {tau}", p)); break;
+        }
+    }
+    // a key held by a single unit must never be released when noise is non-positive
+    out
+}
